@@ -1,0 +1,49 @@
+//go:build verif
+
+/*
+ * Accessors for the /verif harness.  Compiled only with `-tags verif`; add-only.
+ */
+
+package ristretto
+
+import "github.com/dgraph-io/ristretto/v2/z"
+
+// VerifSketch exposes the count-min sketch to the differential harness.
+type VerifSketch struct{ S *cmSketch }
+
+func VerifNewSketch(numCounters int64) *VerifSketch {
+	return &VerifSketch{S: newCmSketch(numCounters)}
+}
+func (v *VerifSketch) Seeds() []uint64 { return append([]uint64{}, v.S.seed[:]...) }
+func (v *VerifSketch) SetSeeds(s []uint64) {
+	copy(v.S.seed[:], s)
+}
+func (v *VerifSketch) Mask() uint64            { return v.S.mask }
+func (v *VerifSketch) Increment(h uint64)      { v.S.Increment(h) }
+func (v *VerifSketch) Estimate(h uint64) int64 { return v.S.Estimate(h) }
+func (v *VerifSketch) Reset()                  { v.S.Reset() }
+func (v *VerifSketch) Clear()                  { v.S.Clear() }
+func (v *VerifSketch) Rows() [][]byte {
+	out := make([][]byte, len(v.S.rows))
+	for i := range v.S.rows {
+		out[i] = append([]byte{}, v.S.rows[i]...)
+	}
+	return out
+}
+func VerifNext2Power(x int64) int64 { return next2Power(x) }
+
+// VerifTinyLFU exposes the admission policy.
+type VerifTinyLFU struct{ T *tinyLFU }
+
+func VerifNewTinyLFU(numCounters int64) *VerifTinyLFU {
+	return &VerifTinyLFU{T: newTinyLFU(numCounters)}
+}
+func (v *VerifTinyLFU) Sketch() *VerifSketch    { return &VerifSketch{S: v.T.freq} }
+func (v *VerifTinyLFU) Door() *z.Bloom          { return v.T.door }
+func (v *VerifTinyLFU) Incrs() int64            { return v.T.incrs }
+func (v *VerifTinyLFU) ResetAt() int64          { return v.T.resetAt }
+func (v *VerifTinyLFU) Increment(h uint64)      { v.T.Increment(h) }
+func (v *VerifTinyLFU) Push(hs []uint64)        { v.T.Push(hs) }
+func (v *VerifTinyLFU) Estimate(h uint64) int64 { return v.T.Estimate(h) }
+func (v *VerifTinyLFU) Reset()                  { v.T.reset() }
+func (v *VerifTinyLFU) Clear()                  { v.T.clear() }
